@@ -23,12 +23,12 @@ UNIT = dict(
         members={'m_fields', 'm_dataType', 'm_name', 'm_message', 'm_lastCheckTime', 'm_isTrue', 'm_hasValues', 'm_field', 'm_conditions', 'm_valueRanges', 'm_matchedValue',
                  'm_lastUpdateTime', 'm_lastChangeTime', 'm_lastSlaveData', 'm_data'},
         ranges={'m_fields': ('const struct SDF*', 'fvec_size', 'fvec_at'), 'm_conditions': ('struct Cond*', 'cvec_size', 'cvec_at')},
-        methods={'hasField': [(r'^field$', 'SDF_hasField'), (r'm_data$', 'DFS_hasField')], 'isNumeric': 'DataType_isNumeric',
+        methods={'hasField': [(r'^field$', 'SDF_hasField'), (r'm_data$', 'DFS_hasField')], 'getName': 'SDF_getName', 'isNumeric': 'DataType_isNumeric',
                  'getLastChangeTime': 'Message_getLastChangeTime', 'isTrue': 'Cond_isTrue',
                  'decodeLastDataNumField': 'Message_decodeLastDataNumField', 'length': 'vstr_length', 'c_str': 'vstr_c_str', 'size': [(r'm_valueRanges$', 'rvec_size'), (r'^data$', 'SymbolString_size')]},
         index=[(r'^m_valueRanges$', 'rvec_at')],
         own_methods={'checkValue': ('Cond_checkValue', 'self')},
-        text_subs=[(r'fieldName == self->m_name', 'vstr_eq_cstr(&self->m_name, fieldName)'), (r'Cond_checkValue\(self, self->m_message, self->m_field\)', 'Cond_checkValue(self, self->m_message, self->m_field)'), (r'self->m_matchedValue = AttributedItem_formatInt\(value\);', 'self->m_matchedValue = value;'),
+        text_subs=[(r'fieldName == self->m_name', 'vstr_eq_cstr(&self->m_name, fieldName)'), (r'fieldName (==|!=) (SDF_getName\([^()]*\))', lambda m: '%svstr_eq_cstr_v(%s, fieldName)' % ('!' if m.group(1) == '!=' else '', m.group(2))), (r'Cond_checkValue\(self, self->m_message, self->m_field\)', 'Cond_checkValue(self, self->m_message, self->m_field)'), (r'self->m_matchedValue = AttributedItem_formatInt\(value\);', 'self->m_matchedValue = value;'),
                    (r'AttributedItem::formatInt', 'AttributedItem_formatInt'), (r'self->m_lastSlaveData != \(\*data\)', 'SymbolString_differs(&self->m_lastSlaveData, data)'),
                    (r'time\(&self->m_lastUpdateTime\)', 'env_time(&self->m_lastUpdateTime)')],
     ),
